@@ -156,7 +156,7 @@ func judge(c *vk.Ctx, tr *tracker, b, e int, lastAtCall int, res rig.StepResult,
 
 func main() {
 	c := vk.Init("C10")
-	c.Rule("(1) EXHAUSTIVE: for K in 1..8 outbound messages of mixed kinds (Logon/Logon reply, application sends, Heartbeat replies to TestRequests, Rejects of damaged messages), both roles, classes fresh-objects and reused-object: every ResendRequest(b,e) with (b,e) in [0,K+2]^2 on a fresh session; first transmissions are recorded from Outgoing() as emitted and compared byte for byte. (2) random sessions with K up to 200 and up to 12 repeated/overlapping requests each; in every third one the application registers observers (outgoing all-types, outgoing for its message type, incoming all-types) before Session.Run and removes them after the first round. (3) Logon gap: counter store preset to c, Logon with 34=r, all (c,r) in [0,6]x[1,8], both roles: r>c+1 must draw a ResendRequest with 7=c+1; and the same at a second logon of one session (after its own Logout was answered, or after the peer's Logout), the second Logon skipping 0, 1 or 3 numbers. (3c) real time, N=1: ResendRequest(1,0) arriving while the session's own TestRequest is pending is answered with the stored messages, not rejected. (4) thorough: 3 goroutines send while requests are fed; retransmissions must be byte-identical, contiguous b..n with n between last-sent-at-call and last-sent-at-return. distinct = (role,class,K,b,e,traffic); non-trivial = request inside the sent range or e=0")
+	c.Rule("(1) EXHAUSTIVE: for K in 1..8 outbound messages of mixed kinds (Logon/Logon reply, application sends, Heartbeat replies to TestRequests, Rejects of damaged messages), both roles, classes fresh-objects and reused-object: every ResendRequest(b,e) with (b,e) in [0,K+2]^2 on a fresh session; first transmissions are recorded from Outgoing() as emitted and compared byte for byte. (2) random sessions with K up to 200 and up to 12 repeated/overlapping requests each; in every third one the application registers observers (outgoing all-types, outgoing for its message type, incoming all-types) before Session.Run and removes them after the first round. (2b) sessions continuing a counter store preset to 9990 / 99990 / 999990 / 9999990 / 2^31-10 / 2^32-10: 14 messages, then requests b..e with b = preset+1..15 and e in {b, b+1, preset+9, +10, +11, last-1, last, 0}. (3) Logon gap: counter store preset to c, Logon with 34=r, all (c,r) in [0,6]x[1,8], both roles: r>c+1 must draw a ResendRequest with 7=c+1; and the same at a second logon of one session (after its own Logout was answered, or after the peer's Logout), the second Logon skipping 0, 1 or 3 numbers. (3c) real time, N=1: ResendRequest(1,0) arriving while the session's own TestRequest is pending is answered with the stored messages, not rejected. (4) thorough: 3 goroutines send while requests are fed; retransmissions must be byte-identical, contiguous b..n with n between last-sent-at-call and last-sent-at-return. distinct = (role,class,K,b,e,traffic); non-trivial = request inside the sent range or e=0")
 	c.Assume("precondition: no outgoing handler refuses and the store does not fail (every assigned number was saved)")
 	type job struct {
 		role  rig.Role
@@ -296,6 +296,59 @@ func main() {
 			c.Max("max_last_sent", int64(lastAtCall))
 			judge(c, tr, b, e, lastAtCall, res, desc, "fresh-objects")
 			tr.observe(res.Outs) // a Reject or other new message consumes a number
+		}
+	})
+
+	// (2b) sessions that continue a counter standing just below a power of ten or of two: the numbers of the range are
+	// ordinary numbers whatever their size (999999 is not "infinity", 2^31 and 2^32 are not limits)
+	presets := []int{9990, 99990, 999990, 9999990, 1<<31 - 10, 1<<32 - 10}
+	vk.Parallel(len(presets)*2*15, runtime.NumCPU(), func(i int) {
+		preset := presets[i%len(presets)]
+		role := rig.Role((i / len(presets)) % 2)
+		bOff := 1 + i/(len(presets)*2) // 1..15
+		desc := fmt.Sprintf("%s fresh-objects counter-preset-%d b=preset+%d", role, preset, bOff)
+		st := memory.NewStorage()
+		if err := st.SetSeqNum(fix.StorageID{Side: fix.Outgoing}, preset); err != nil {
+			c.Inconclusive("preset: " + err.Error())
+			return
+		}
+		r, err := rig.NewStepRig(rig.StepCfg{Role: role, HeartBtInt: 30, Limits: &session.IntLimits{Min: 5, Max: 60}, Counter: st, Messages: st})
+		if err != nil {
+			return
+		}
+		defer r.Close()
+		p := rig.NewPeer()
+		tr := &tracker{first: map[int][]byte{}}
+		tr.observe(r.InitOuts)
+		res := r.Inbound(p.Logon(30, "0"))
+		if !res.Logged {
+			return
+		}
+		tr.observe(res.Outs)
+		rr := c.Rand("c10-preset", int64(i))
+		if !traffic(c, r, p, tr, preset+14, func(n int) int { return rr.Intn(n) }, false) {
+			return
+		}
+		if tr.last < preset+14 || len(tr.first) < 14 {
+			c.Inconclusive(fmt.Sprintf("%s: the session did not continue the preset counter (last sent %d, %d messages seen)", desc, tr.last, len(tr.first)))
+			return
+		}
+		b := preset + bOff
+		for _, e := range []int{b, b + 1, preset + 9, preset + 10, preset + 11, tr.last - 1, tr.last, 0} {
+			if e != 0 && e < b {
+				continue
+			}
+			lastAtCall := tr.last
+			res = r.Inbound(p.Resend(b, e))
+			if res.TimedOut {
+				c.Inconclusive("watchdog")
+				return
+			}
+			cat := category(b, e, lastAtCall)
+			c.Eval(vk.Hash64([]byte(desc), []byte(fmt.Sprint(b, e, lastAtCall))), strings.HasPrefix(cat, "inside") || cat == "e=0")
+			c.Count("requests_on_sessions_continuing_a_high_counter", 1)
+			judge(c, tr, b, e, lastAtCall, res, desc, "fresh-objects")
+			tr.observe(res.Outs)
 		}
 	})
 
